@@ -184,6 +184,26 @@ Theorem C08_pipeline_left_indep_of_right : forall E p, has_validation p = false 
   left_eq (run_steps E true p a) (run_steps E false p b).
 Proof. exact run_steps_left. Qed.
 
+(* the glue itself: in every run (any steps, validation or not) each product is computed on the image of its own
+   side and on the interval of its own side -- [min, max] for the left cost volume / dataset, [-max, -min] for the
+   right ones (a callback that hands the left interval or the left cost volume to the right pass breaks the
+   bridge theorem above; this is what the composed model then computes) *)
+Theorem C08_pipeline_intervals_and_shapes : forall E g p,
+  let st := run_pipeline E g p in
+  st_L st = g_left g /\ st_R st = g_right g /\
+  st_lmin st = g_dmin g /\ st_lmax st = g_dmax g /\ st_rmin st = (- g_dmax g)%Z /\ st_rmax st = (- g_dmin g)%Z /\
+  (forall cv, st_lcv st = Some cv ->
+     cv_dmin cv = g_dmin g /\ cv_dmax cv = g_dmax g /\ cv_ny cv = im_ny (g_left g) /\ cv_nx cv = im_nx (g_left g)) /\
+  (forall cv, st_rcv st = Some cv ->
+     cv_dmin cv = (- g_dmax g)%Z /\ cv_dmax cv = (- g_dmin g)%Z /\
+     cv_ny cv = im_ny (g_right g) /\ cv_nx cv = im_nx (g_right g)) /\
+  (forall d, st_ld st = Some d ->
+     ds_dmin d = g_dmin g /\ ds_dmax d = g_dmax g /\ ds_nr d = im_ny (g_left g) /\ ds_nc d = im_nx (g_left g)) /\
+  (forall d, st_rd st = Some d ->
+     ds_dmin d = (- g_dmax g)%Z /\ ds_dmax d = (- g_dmin g)%Z /\
+     ds_nr d = im_ny (g_right g) /\ ds_nc d = im_nx (g_right g)).
+Proof. exact pipeline_intervals_and_shapes. Qed.
+
 (* Non-vacuity of the concrete statements: a 3 x 6 pair (mask on the right image), interval [-1, 1], the pipeline
    sad / wta / median / vfit / cross-checking + sgm interpolation, with the constants of the tree under test.  The
    right and left products differ, the right products are the left products of the mirrored run (computed). *)
@@ -228,3 +248,4 @@ Print Assumptions C08_pipeline_right_is_mirrored_left.
 Print Assumptions C08_pipeline_no_validation_right_empty.
 Print Assumptions C08_pipeline_xcheck_keeps_left_disparity.
 Print Assumptions C08_pipeline_left_indep_of_right.
+Print Assumptions C08_pipeline_intervals_and_shapes.
